@@ -12,7 +12,7 @@ NOT_APPLICABLE["C13"] = (
 
 PROPS = {
     "C09": {
-        "rules": ["TRAV@C09", "TRAVBASE"],
+        "rules": ["TRAV@C09", "TRAVBASE", "PARCHECK", "BACKPIPE", "PAREMIT", "EXH"],
         "thorough": [],
         "technique": "static analysis: per-constructor path simulation of visitor overrides (traversal completeness) + pipeline def-use",
         "level_text": "Structural clauses only: every Par loop at any nesting depth reaches Check_ParallelizeLoop before code generation "
